@@ -763,6 +763,10 @@ class WindowsRegistryValueType(_STIXBase21):
         ('data_type', EnumProperty(WINDOWS_REGISTRY_DATATYPE)),
     ])
 
+    def _check_object_constraints(self):
+        super(WindowsRegistryValueType, self)._check_object_constraints()
+        self._check_at_least_one_property()
+
 
 class WindowsRegistryKey(_Observable):
     """For more detailed information on this object's properties, see
